@@ -42,7 +42,7 @@ def mk(n, tables=True, tag='ab', q0=0.1, xf=False, shift=0.0, cell=20.0, dup=Fal
     els = ['C', 'N', 'O', 'C', 'N', 'O', 'C', 'N'][:n]
     tl = ['C' + tag[0], 'N' + tag[0], 'O' + tag[0], 'C' + tag[1]]
     types = [0, 1, 2, 3, 1, 2, 0, 1][:n]
-    kw = dict(atom_types=types, atom_type_elements=['C', 'N', 'O', 'C'], atom_type_labels=tl, atom_type_masses=[12., 14., 16., 12.5],
+    kw = dict(atom_types=types, atom_type_elements=['C', 'N', 'O', 'C'], atom_type_labels=tl, atom_type_masses=[12., 14., 16., 12.01],
               positions=[(1.0 + i + shift, 1.0 + 0.1 * i, 1.0) for i in range(n)], charges=[q0 * (i + 1) for i in range(n)], groups=[i % 2 for i in range(n)])
     if cell is not None:
         kw['cell'] = cell * np.identity(3) if np.isscalar(cell) else np.array(cell, dtype=float)
